@@ -86,8 +86,10 @@ theorem alloc_linear (f : List Nat) (bs : Bytes) : decodeCost f bs ≤ 64 * bs.l
   decodeCost_le f bs
 
 /-- non-vacuity of the allocation bound (F5 witness): an extended-router record announcing length 4
-(which made the unrepaired code request 4 GiB) costs 2 units, a valid one its 8-octet buffer -/
-example : flowRecordCost [0,0,3,234, 0,0,0,4, 0,0,0,1, 192,0,2,9, 0,0,0,24, 0,0,0,16] = 2 ∧
+(which made the unrepaired code request 4 GiB) is skipped by its length since the F19d repair and costs
+1 unit (no buffer at all), as does one announcing 4 294 967 295; a valid one costs its 8-octet buffer -/
+example : flowRecordCost [0,0,3,234, 0,0,0,4, 0,0,0,1, 192,0,2,9, 0,0,0,24, 0,0,0,16] = 1 ∧
+    flowRecordCost [0,0,3,234, 255,255,255,255, 0,0,0,1, 192,0,2,9, 0,0,0,24, 0,0,0,16] = 1 ∧
     flowRecordCost [0,0,3,234, 0,0,0,16, 0,0,0,1, 192,0,2,9, 0,0,0,24, 0,0,0,16] = 10 := by decide
 
 /-- non-vacuity: a datagram announcing 4 294 967 295 samples but carrying none ends with an error after
